@@ -293,3 +293,7 @@ package binaryheap
 //@   loop 1:
 //@     invariant ItInv(it) && fresh(it) && it.heap == heap && len(values) == N(heap) && (N(heap) > 0 ==> fresh(arr(values)))
 //@     decreases N(heap) - it.index
+
+//@ func New
+//@   modifies nothing
+//@   ensures [C06 C15 C17] fresh(result) && Inv(result) && N(result) == 0 && fresh(result.list)
